@@ -1545,7 +1545,7 @@ impl Sim {
         let class = format!("{}{}", self.g.nodes[l].origin, if was_passed { " differentiated" } else { "" });
         // an input batch (or a view sharing its buffer) is held by the model's retained output graph
         let model_pinned = self.model_pins.iter().any(|(n, it)| {
-            self.g.nodes[*n].alias == self.g.nodes[l].alias && (self.model_output_iter == Some(*it) || self.held.iter().any(|h| h.tag == *it && h.what == "kept model output"))
+            *it != u64::MAX && self.g.nodes[*n].alias == self.g.nodes[l].alias && (self.model_output_iter == Some(*it) || self.held.iter().any(|h| h.tag == *it && h.what == "kept model output"))
         });
         let protected_alias = self.protected.iter().any(|n| self.g.nodes[*n].alias == self.g.nodes[l].alias);
         if self.protected.contains(&l) || protected_alias || model_pinned {
